@@ -41,8 +41,8 @@ def worker(sh):
         if sh.index == 0 and i < 6:
             h = [0, 1, Q - 1, Q, (1 << 384) - 1, 1 << 383][i]
         hb = h.to_bytes(48, 'big').hex()
-        mode = 0 if i % 3 else rng.choice([1, 2, 3, 4])
-        if i < 5:
+        mode = rng.choice([0, 0, 5]) if i % 3 else rng.choice([1, 2, 3, 4])
+        if i < 6:
             mode = i
         ms = rng.choice(masters)
         if mode != 0 and ms != '-' and C.unle(ms) % R == 0:
@@ -68,9 +68,10 @@ def worker(sh):
             if kv['outlen'] != '%d,%d' % (kl, kl) or kv['outptr'] != '1,1':
                 fail('output-length', 'requested key length/destination not passed through: %s %s' % (kv['outlen'], kv['outptr']))
             same = kv['same_input'] == '1'
-            if mode == 0:
+            if mode in (0, 5):
                 if not same or kv['same_key'] != '1':
-                    fail('key-mismatch', 'decryption fed the hash different bytes than encryption')
+                    fail('key-mismatch' if mode == 0 else 'key-mismatch:hash-function-reenters-library',
+                         'decryption fed the hash different bytes than encryption' + (' (the hash function itself ran another decrypt/encrypt before reading its input)' if mode == 5 else ''))
             else:
                 h2 = int.from_bytes(bytes(b ^ (0x5a if i == 20 else 0) for i, b in enumerate(h.to_bytes(48, 'big'))), 'big')
                 degenerate = C.dec_g1a(kv['id']) is None or (mode in (1, 4) and tai1((h2 & M381) % Q)[0] == tai1((h & M381) % Q)[0])
@@ -100,7 +101,7 @@ def worker(sh):
                     xb[0] |= 0x80
                     if bytes(got) != bytes(xb):
                         fail('hash-input:ciphertext', 'bytes 48..144 are not the compressed ciphertext point')
-            if kv['pairing_matches'] != '1':
+            if kv['pairing_matches'] != '1' and mode != 5:
                 fail('hash-input:pairing', 'last 576 bytes are not e(sk, rP) (library pairing)')
             # identity point and secret key by reference arithmetic
             x, nsteps = tai1((h & M381) % Q)
@@ -135,7 +136,7 @@ def run(ctx):
                 'identity object / other master / modified ciphertext must change the bytes; class = (mode, key length, master kind)')
     ctx.extra['configs'] = cfgs
     ctx.assumptions = ['oracle/bls.py', 'library pairing as instrument for the always-on pairing comparison']
-    need = ['lqibe|mode0/keylen0', 'lqibe|mode1', 'lqibe|mode2', 'lqibe|mode3', 'lqibe|mode4']
+    need = ['lqibe|mode0/keylen0', 'lqibe|mode5', 'lqibe|mode1', 'lqibe|mode2', 'lqibe|mode3', 'lqibe|mode4']
     for r in need:
         if not any(k.startswith(r) for k in ctx.classes):
             ctx.required_classes.add(r)
